@@ -363,6 +363,21 @@ def run(ck):
         ok = len(mcalls) == 1 and len(keep) == 1 and flow.equivalent(mcalls[0][1], flow.NOT(keep[0][1]))[0] and u(mcalls[0][0].value.args[0]) == u(lp[0].target) \
             and u(lp[0].iter) == 'system.molecules'
     ck.ob('PROV-merge-callers', mcm.loc(mc), ok, 'merge_chains either merges a molecule (in system order) or keeps it: none is dropped', key='PROV-merge-callers|merge_chains')
+    # the merged molecule takes the place of the first molecule merged into it -- once: "has something been merged yet" is a fact about the loop, not about
+    # the receiver being non-empty (an atom-less molecule merges into it and leaves it empty)
+    if len(lp) == 1:
+        recv_apps = stmts_with_env(mc, lambda s_: isinstance(s_, ast.Expr) and call_attr(s_.value) == 'append' and u(s_.value.args[0]) != u(lp[0].target)
+                                   and 'molecules' in u(s_.value.func.value), stmts=lp[0].body)
+        bad_ = []
+        for s_, c_, _e in recv_apps:
+            for k in flow.atoms_of(c_):
+                if k[0] == 'truth' and k[1] == u(s_.value.args[0]):
+                    bad_.append(k[1])
+                elif k[0] in ('Eq', 'Gt', 'GtE') and 'len({})'.format(u(s_.value.args[0])) in k[1:]:
+                    bad_.append('len')
+        ck.ob('PROV-merge-callers', mcm.loc(mc), len(recv_apps) == 1 and not bad_,
+              'the merged molecule is put into the system once, at the first merge, and that "first" is not decided by the merged molecule being empty ({} site(s){})'.format(
+                  len(recv_apps), ', decided by emptiness' if bad_ else ''), key='PROV-merge-callers|merge_chains|once')
     sysm = idx.mod('vermouth/system.py')
     cp2 = sysm.func('System.copy')
     ck.ob('ALIAS-copy', sysm.loc(cp2), 'new_system.molecules = [mol.copy() for mol in self.molecules]' in u(cp2), 'System.copy copies every molecule', key='ALIAS-copy|system')
